@@ -6,6 +6,12 @@ IDS=$(python3 -c "import json;print(' '.join(c['property_id'] for c in json.load
 cd lean || exit 2
 PROPS=""
 for i in $IDS; do test -f Amoco/Props/$i.lean && PROPS="$PROPS Amoco.Props.$i"; done
+# property modules that extend a claimed property (C01Ext, C06X86, C14Pe, C14Macho ...): built here so that the checks start warm
+for f in Amoco/Props/C??[A-Za-z]*.lean; do
+  test -f "$f" || continue
+  b=$(basename "$f" .lean); id=$(echo "$b" | cut -c1-3)
+  case " $IDS " in *" $id "*) PROPS="$PROPS Amoco.Props.$b";; esac
+done
 lake build $PROPS amoco_driver 2>&1 | tail -5 || exit 1
 test -x .lake/build/bin/amoco_driver || { echo "driver not built"; exit 1; }
 # the per-core drivers: built one by one, a core still under construction must not block the others
